@@ -153,6 +153,18 @@ def check(prog, rep):
             if implied_constant(n, recv, assigns):
                 rep.ob("R12.1", construct, True, f"dominated by isinstance({recv}, Constant): cannot be a Parameter", loc=loc, detail="constant-guarded")
                 continue
+            # positively a Parameter: the read sits under `isinstance(<recv>, Parameter)` (and outside any closure)
+            under_param = False
+            for t_, pol_ in dominating_guards(n):
+                if pol_ and isinstance(t_, ast.Call) and dotted(t_.func) == "isinstance" and len(t_.args) == 2 and src(t_.args[0]) == recv:
+                    ks_ = t_.args[1].elts if isinstance(t_.args[1], ast.Tuple) else [t_.args[1]]
+                    if any(src(k_).split(".")[-1] in ("Parameter", "VectorParameter", "MatrixParameter") for k_ in ks_) and not any(src(k_).split(".")[-1] == "Constant" for k_ in ks_):
+                        under_param = True
+            if under_param and (lam is fi.node) and fi.cls is None:
+                rep.ob("R12.1", construct, False,
+                       f"reads {recv}.{n.attr} under `isinstance({recv}, Parameter)` while the artefact is being built: the parameter's value at that moment is what the result keeps, later Parameter.set() calls are ignored",
+                       loc=loc, detail="eager-read", robust=True)
+                continue
             verdict = _guard_evidence(fi, n, recv, assigns)
             if verdict == "unknown":
                 rep.undecided(f"{construct}: {recv} is tested with isinstance(.., Constant) / by a predicate in this function, but the test does not dominate the read in a way this rule can follow (loop-else, flag, helper): not decided")
